@@ -92,13 +92,6 @@ namespace svmon
     return r;
   }
 
-  enum Outcome { OUT_NORMAL = 0, OUT_FAULT, OUT_FAULT_ALLOC, OUT_LENGTH, OUT_RANGE, OUT_BADALLOC, OUT_OTHER, OUT_SKIPPED };
-  inline const char *outcome_name (int o)
-  {
-    static const char *n[] = { "normal", "fault", "fault-alloc", "length_error", "out_of_range", "bad_alloc", "other-exception", "skipped" };
-    return n[o];
-  }
-
   struct OpResult
   {
     Outcome out;
